@@ -54,8 +54,8 @@ class Explorer:
         if self.t0 is not None and time.time() - self.t0 > self.wall_s:
             raise BudgetHit("wall")
 
-    def push_alt(self, prefix):
-        self.worklist.append(list(prefix))
+    def push_alt(self, prefix, model=None):
+        self.worklist.append((list(prefix), model))
 
     # -- transcendental helpers (only the step controller uses them)
     def const_fun(self, name, v):
@@ -257,13 +257,13 @@ class Explorer:
     # -- main loop
     def explore(self, fn):
         self.t0 = time.time()
-        self.worklist = [[]]
+        self.worklist = [([], None)]
         while self.worklist:
             if self.stats["paths"] >= self.max_paths or time.time() - self.t0 > self.wall_s:
                 self.exhausted = False
                 break
-            prefix = self.worklist.pop()
-            c = PathCtx(self, prefix)
+            prefix, pmodel = self.worklist.pop()
+            c = PathCtx(self, prefix, pmodel)
             core.set_ctx(c)
             outcome = "done"
             try:
